@@ -1729,6 +1729,78 @@ func writeDriftGen(out string, col *bindCollection) error {
 	return writeIfChanged(filepath.Join(out, "BindXDrift_gen.v"), []byte(b.String()))
 }
 
+// ---------------------------------------------------------------- word-size dependent constants
+
+const bindWordsizeRegion = "wordsize-const-32bit"
+
+// bindWordsize judges the platform-INDEPENDENT binding files of the compiled release (stdlib/go1_N_*.go:
+// no GOOS/GOARCH in name or constraint, one table for every platform) against the go/types truth of a
+// 32-bit platform as well.  Only the untyped constants whose exact value there differs from the host
+// truth are emitted, with their rows: one group per file, named "<file>@linux/386".
+func bindWordsize(col *bindCollection) ([]*bindGroup, error) {
+	const goos, goarch = "linux", "386"
+	ld := bindLoaderFor(goos, goarch)
+	var out []*bindGroup
+	rid, tid := 3000000, 3100000
+	for _, g := range col.Groups {
+		if !g.Quick || g.Release != col.CompiledRelease || strings.Contains(g.Name, "/") || !bindFileRe.MatchString(g.Name) {
+			continue
+		}
+		ng := &bindGroup{Name: g.Name + "@" + goos + "/" + goarch, Release: g.Release, GOOS: goos, GOARCH: goarch}
+		names := map[string]bool{}
+		for _, tp := range g.Truth {
+			tp32, err := ld.truth(tp.Path, col.API, goos+"-"+goarch)
+			if err != nil {
+				continue // the package does not exist on that platform
+			}
+			cp := &truthPkg{Path: tp.Path, Name: tp.Name, byName: map[string]*truthObj{}, pkg: tp32.pkg}
+			for _, o := range tp32.Objs {
+				h := tp.byName[o.Name]
+				if h == nil || o.Num == nil && o.Kind != "ustring" {
+					continue
+				}
+				same := h.Kind == o.Kind && h.Str == o.Str && (h.Num == nil) == (o.Num == nil) &&
+					(o.Num == nil || (h.Num.Cmp(o.Num) == 0 && h.Den.Cmp(o.Den) == 0))
+				if same {
+					continue
+				}
+				c := *o
+				tid++
+				c.ID = tid
+				cp.Objs = append(cp.Objs, &c)
+				cp.byName[c.Name] = &c
+				names[tp.Path+"/"+tp.Name+"\x00"+c.Name] = true
+			}
+			if len(cp.Objs) > 0 {
+				ng.Truth = append(ng.Truth, cp)
+			}
+		}
+		if len(ng.Truth) == 0 {
+			continue
+		}
+		for _, f := range g.Files {
+			nf := &bindFile{Path: f.Path, Imports: f.Imports, Locals: f.Locals}
+			for _, r := range f.Rows {
+				if !names[r.Key+"\x00"+r.Name] {
+					continue
+				}
+				rc := *r
+				rid++
+				rc.ID = rid
+				for _, tp := range ng.Truth {
+					if tp.Path+"/"+tp.Name == rc.Key {
+						rc.truthPkg, rc.truth = tp, tp.byName[rc.Name]
+					}
+				}
+				nf.Rows = append(nf.Rows, &rc)
+			}
+			ng.Files = append(ng.Files, nf)
+		}
+		out = append(out, ng)
+	}
+	return out, nil
+}
+
 func writeRestrictedGen(out string, tab, decls []string) error {
 	var b strings.Builder
 	b.WriteString("(* generated by vh tr-bind from extract/extract.go (restricted) and stdlib/restricted.go; do not edit *)\n")
@@ -1761,6 +1833,14 @@ func trBind(args []string) error {
 		if err := writeIfChanged(filepath.Join(*out, fmt.Sprintf("Bind_%02d_gen.v", i)), []byte(bindShardText(s))); err != nil {
 			return err
 		}
+	}
+	// word-size dependent constants of the platform-independent files, against go/types for linux/386
+	ws, err := bindWordsize(col)
+	if err != nil {
+		return err
+	}
+	if err := writeIfChanged(filepath.Join(*out, "BindW_gen.v"), []byte(bindShardText(ws))); err != nil {
+		return err
 	}
 	// the tables of the other platforms (release the toolchain compiles), against go/types per GOOS/GOARCH
 	if err := writeDriftGen(*out, col); err != nil {
